@@ -331,3 +331,22 @@ def run(ctx):
                 violation(ctx, "implementation violates C03: %s" % bad[0], {"case": cc, "failures": bad}, found_input=True)
         ctx.oblig("impl-audit-C03", nb == 0, "%d cases" % nb)
     ctx.notes["input_distribution"] = stats
+
+
+_TB = [
+    "Coq 8.16.1 kernel, vm_compute for model evaluation; all C01/C03 theorems are closed under the global context (no axioms)",
+    "hand-written model coq/model/Tree.v of NutsTree::{extend, merge_into, single_step} and nuts::draw over an abstract orbit (weights, U-turn predicate, divergence/error predicates); tied to /repo by the correspondence: the model's scripted interpretation is run on the orbit logged from the real nuts::draw (same random words) and must reproduce the order of leapfrogs, the number of random words consumed, the selected index, depth, divergence and maxdepth flags",
+    "weights handed to the model are exp(-energy error) of the logged f64 energies (python libm); draws with a coin probability within 1e-9 of 0 or 1 are skipped as ambiguous and counted",
+    "harness/src/bin/orbit.rs (scripted RNG as rand 0.10 defines bool / random_bool, delegating Math with scripted momentum), hook nuts_rs::verif::nuts_draw and point accessors",
+    "not in the theorem: continuous-state invariance (measure theory); it is the orbit-wise statement over exact arithmetic",
+]
+TRUSTED = {"C01": _TB, "C03": _TB}
+ASSUMPTIONS = {
+    "C01": ["the orbit seen from another of its states is the same orbit re-indexed (reversibility of the integrator, C02)",
+            "default tree options (mindepth 0, extra_doublings 0, check_turning) and no divergence inside the trajectory, as the property states"],
+    "C03": ["statistics of the returned state are compared bitwise with the state logged when the integrator reached that index"],
+}
+RULE = {
+    "C01": "seeded random orbits: dimension 1-6, Gaussian/quartic potentials, diagonal and low-rank transformations, Euclidean and ExactNormal, maxdepth 0-7, mindepth, extra doublings, scripted random words; non-trivial = a draw of depth >= 1; distinct by (case, draw)",
+    "C03": "same stream as C01 plus density faults of every kind at a random evaluation; additionally an implementation-side audit of every draw against the statement (depth/steps/index relations, draw equals a reached state bitwise, next trajectory starts from it)",
+}
